@@ -58,7 +58,7 @@ QUTF8 = r"[^'\\]"
 DSTRING = f"({QS}|{QQ}|{QUTF8})+"
 QDSTRING = f"{SQUOTE}{DSTRING}{SQUOTE}"
 QDSTRINGLIST = f"({QDSTRING}({SP}{QDSTRING})*)?"
-QDSTRINGS = f"({QDSTRING}|{LPAREN}{WSP}{QDSTRINGLIST}{WSP}{RPAREN})"
+QDSTRINGS = f"({QDSTRING}|{LPAREN}{WSP}({QDSTRING}({SP}{QDSTRING})*{WSP})?{RPAREN})"
 
 
 XSTRING = f"[xX]{HYPHEN}([a-zA-Z]|{HYPHEN}|{USCORE})+"
